@@ -173,129 +173,111 @@ Qed.
 
 (* ------------------------------------------------------------------------ the parse loop *)
 
-Lemma loop_app : forall step a b r,
-  Forall (fun c => c <> 0) a ->
-  atoi_loop step 0 (a ++ b) r =
-  match atoi_loop step 0 a r with AR_ok r' => atoi_loop step 0 b r' | e => e end.
-Proof.
-  intros step. induction a as [| c a IH]; intros b r H; cbn [app atoi_loop].
-  - destruct b; reflexivity.
-  - inversion H; subst. destruct (Z.eqb_spec c 0); [contradiction |].
-    destruct (step r c); try reflexivity. apply IH. assumption.
-Qed.
-
 Lemma digits_no_nul : forall l, Forall (fun c => 48 <= c <= 57) l -> Forall (fun c => c <> 0) l.
 Proof. intros l H. eapply Forall_impl; [| exact H]. cbn. intros; lia. Qed.
 
-Lemma schar_digit : forall d, 0 <= d <= 9 -> schar (48 + d) = 48 + d.
-Proof. intros d H. unfold schar. destruct (Z.ltb_spec (48 + d) 128); lia. Qed.
+Lemma umod_pos : forall ty, 0 < umod ty.
+Proof. intros []; reflexivity. Qed.
 
-Lemma in_int_true : forall x, -2147483648 <= x < 2147483648 -> in_int x = true.
-Proof. intros x H. unfold in_int, W31. apply andb_true_intro. split; [apply Z.leb_le | apply Z.ltb_lt]; lia. Qed.
-
-(* T = int, one more digit d after a prefix q whose extension 10 q + d still fits: no operation
-   leaves int (upwards for non-negative numbers, downwards after a '-') *)
-Lemma int_step_up : forall q d, 0 <= q -> 0 <= d <= 9 -> 10 * q + d <= 2147483647 ->
-  int_step false q (48 + d) = AR_ok (10 * q + d).
+(* with the NUL terminator the loop always completes: fast_atoi is total, on EVERY text *)
+Lemma loop_total : forall ty l r, exists v, atoi_loop ty 0 l r = AR_ok v /\
+  (0 <= r < umod ty -> 0 <= v < umod ty).
 Proof.
-  intros q d Hq Hd Hb. unfold int_step. rewrite schar_digit by exact Hd.
-  rewrite in_int_true by lia. cbn [negb]. rewrite in_int_true by lia. cbn [negb]. f_equal. lia.
+  intros ty. induction l as [| c l IH]; intros r; cbn [atoi_loop].
+  - exists r. split; [reflexivity | auto].
+  - destruct (c =? 0); [exists r; split; [reflexivity | auto] |].
+    destruct (IH (atoi_step ty r c)) as [v [E B]]. exists v. split; [exact E |].
+    intros _. apply B. unfold atoi_step. apply Z.mod_pos_bound. apply umod_pos.
 Qed.
 
-Lemma int_step_down : forall q d, 0 <= q -> 0 <= d <= 9 -> 10 * q + d <= 2147483648 ->
-  int_step true (- q) (48 + d) = AR_ok (- (10 * q + d)).
-Proof.
-  intros q d Hq Hd Hb. unfold int_step. rewrite schar_digit by exact Hd.
-  rewrite in_int_true by lia. cbn [negb]. rewrite in_int_true by lia. cbn [negb]. f_equal. lia.
-Qed.
-
-Lemma up_digits : forall f n, 0 <= n < 10 ^ Z.of_nat f -> (0 < f)%nat -> n <= 2147483647 ->
-  atoi_loop (int_step false) 0 (dec_digits f n) 0 = AR_ok n.
-Proof.
-  induction f as [| f IH]; intros n Hn Hf Hb; [lia |].
-  cbn [dec_digits]. destruct (Z.ltb_spec n 10).
-  - cbn [atoi_loop]. destruct (Z.eqb_spec (48 + n) 0); [lia |].
-    rewrite int_step_up by lia. cbn [Z.eqb]. f_equal; lia.
-  - rewrite pow10_S in Hn.
-    assert (Hf' : (0 < f)%nat) by (destruct f; [simpl in Hn; lia | lia]).
-    rewrite loop_app by (apply digits_no_nul, dec_digits_are_digits; lia).
-    rewrite IH by (try lia; pose proof (pow10_pos f); lia).
-    cbn [atoi_loop]. destruct (Z.eqb_spec (48 + n mod 10) 0); [lia |].
-    rewrite int_step_up by lia. cbn [Z.eqb]. f_equal; lia.
-Qed.
-
-Lemma down_digits : forall f n, 0 <= n < 10 ^ Z.of_nat f -> (0 < f)%nat -> n <= 2147483648 ->
-  atoi_loop (int_step true) 0 (dec_digits f n) 0 = AR_ok (- n).
-Proof.
-  induction f as [| f IH]; intros n Hn Hf Hb; [lia |].
-  cbn [dec_digits]. destruct (Z.ltb_spec n 10).
-  - cbn [atoi_loop]. destruct (Z.eqb_spec (48 + n) 0); [lia |].
-    change (int_step true 0 (48 + n)) with (int_step true (- 0) (48 + n)). rewrite int_step_down by lia. cbn [Z.eqb]. f_equal; lia.
-  - rewrite pow10_S in Hn.
-    assert (Hf' : (0 < f)%nat) by (destruct f; [simpl in Hn; lia | lia]).
-    rewrite loop_app by (apply digits_no_nul, dec_digits_are_digits; lia).
-    rewrite IH by (try lia; pose proof (pow10_pos f); lia).
-    cbn [atoi_loop]. destruct (Z.eqb_spec (48 + n mod 10) 0); [lia |].
-    rewrite int_step_down by lia. cbn [Z.eqb]. f_equal; lia.
-Qed.
-
-(* fast_atoi<int> on the canonical text of ANY int32: the value, and no undefined operation *)
-Lemma atoi_int_canon : forall v, -2147483648 <= v < 2147483648 ->
-  fast_atoi T_int 0 (canon_dec v) = AR_ok v.
-Proof.
-  intros v Hv. unfold fast_atoi, canon_dec. destruct (Z.ltb_spec v 0).
-  - rewrite Z.eqb_refl.
-    rewrite down_digits; [f_equal; lia | change (10 ^ Z.of_nat dec_fuel) with (10 ^ 25); lia | unfold dec_fuel; lia | lia].
-  - pose proof (dec_digits_nonempty dec_fuel v ltac:(unfold dec_fuel; lia)) as N.
-    pose proof (dec_digits_are_digits dec_fuel v ltac:(lia)) as F.
-    destruct (dec_digits dec_fuel v) as [| c r] eqn:E; [contradiction |].
-    inversion F; subst. destruct (Z.eqb_spec c 45); [lia |].
-    rewrite <- E. apply up_digits; [change (10 ^ Z.of_nat dec_fuel) with (10 ^ 25); lia | unfold dec_fuel; lia | lia].
-Qed.
-
-(* ------------------------------------------------------------------- the unsigned parsers *)
-
-Definition uns_val (ty : ity) (raw : Z) : Z := match ty with T_ushort => raw mod W16 | _ => raw mod W32 end.
-
-Lemma uns_loop_fold : forall ty l r, Forall (fun c => c <> 0) l ->
-  atoi_loop (uns_step ty) 0 l r =
-  AR_ok (fold_left (fun a c => uns_val ty (a * 10 + (schar c - 48))) l r).
+Lemma loop_fold : forall ty l r, Forall (fun c => c <> 0) l ->
+  atoi_loop ty 0 l r = AR_ok (fold_left (atoi_step ty) l r).
 Proof.
   intros ty l. induction l as [| c l IH]; intros r H; cbn [atoi_loop fold_left].
   - reflexivity.
-  - inversion H; subst. destruct (Z.eqb_spec c 0); [contradiction |].
-    assert (E : uns_step ty r c = AR_ok (uns_val ty (r * 10 + (schar c - 48)))) by (destruct ty; reflexivity).
-    rewrite E. apply IH. assumption.
+  - inversion H; subst. destruct (Z.eqb_spec c 0); [contradiction |]. apply IH. assumption.
 Qed.
 
-Lemma uns_fold_mod : forall ty M, (ty = T_uint /\ M = W32) \/ (ty = T_ushort /\ M = W16) ->
-  forall l a r, a mod M = r mod M -> a = a mod M ->
-  fold_left (fun a c => uns_val ty (a * 10 + (schar c - 48))) l a = (horner l r) mod M.
+(* the accumulator is the Horner value of the characters, reduced mod 2^bits(U) *)
+Lemma fold_mod : forall ty l a r, a mod umod ty = r mod umod ty -> a = a mod umod ty ->
+  fold_left (atoi_step ty) l a = (horner l r) mod umod ty.
 Proof.
-  intros ty M HM.
-  assert (Mpos : 0 < M) by (destruct HM as [[_ ->] | [_ ->]]; reflexivity).
-  assert (Hval : forall x, uns_val ty x = x mod M) by (intros x; destruct HM as [[-> ->] | [-> ->]]; reflexivity).
+  intros ty. pose proof (umod_pos ty) as Mpos.
   induction l as [| c l IH]; intros a r H Ha; cbn [fold_left horner].
   - rewrite Ha. exact H.
   - change (fold_left (fun a0 c0 => 10 * a0 + schar c0 - 48) l (10 * r + schar c - 48))
       with (horner l (10 * r + schar c - 48)).
     apply IH.
-    + rewrite Hval, Z.mod_mod by lia.
+    + unfold atoi_step. rewrite Z.mod_mod by lia.
       replace (10 * r + schar c - 48) with (r * 10 + (schar c - 48)) by lia.
-      rewrite Z.add_mod, Z.mul_mod, H, <- Z.mul_mod, <- Z.add_mod by lia. reflexivity.
-    + rewrite Hval, Z.mod_mod by lia. reflexivity.
+      rewrite Z.add_mod, Z.mod_mod by lia.
+      rewrite (Z.add_mod (r * 10)) by lia.
+      rewrite (Z.mul_mod a), (Z.mul_mod r), H by lia. reflexivity.
+    + unfold atoi_step. rewrite Z.mod_mod by lia. reflexivity.
 Qed.
 
-Lemma atoi_mod_digits : forall ty M, (ty = T_uint /\ M = W32) \/ (ty = T_ushort /\ M = W16) ->
-  forall n, 0 <= n < 10 ^ 25 -> fast_atoi ty 0 (dec_digits dec_fuel n) = AR_ok (n mod M).
+Lemma loop_digits : forall ty n, 0 <= n < 10 ^ 25 ->
+  atoi_loop ty 0 (dec_digits dec_fuel n) 0 = AR_ok (n mod umod ty).
 Proof.
-  intros ty M HM n Hn.
-  assert (Ef : fast_atoi ty 0 (dec_digits dec_fuel n) = atoi_loop (uns_step ty) 0 (dec_digits dec_fuel n) 0)
-    by (destruct HM as [[-> _] | [-> _]]; reflexivity).
-  rewrite Ef, uns_loop_fold by (apply digits_no_nul, dec_digits_are_digits; lia).
-  rewrite (uns_fold_mod ty M HM _ 0 0) by (destruct HM as [[_ ->] | [_ ->]]; reflexivity).
+  intros ty n Hn.
+  rewrite loop_fold by (apply digits_no_nul, dec_digits_are_digits; lia).
+  rewrite (fold_mod ty _ 0 0) by (destruct ty; reflexivity).
   rewrite horner_dec_digits by (try (unfold dec_fuel; lia); exact Hn).
   rewrite Z.mul_0_l, Z.add_0_l. reflexivity.
+Qed.
+
+Lemma sint32_small : forall x, -2147483648 <= x < 2147483648 -> sint32 x = x.
+Proof. intros x H. unfold sint32, W32, W31. destruct (Z.ltb_spec (x mod 4294967296) 2147483648); lia. Qed.
+
+Lemma sint32_range : forall x, -2147483648 <= sint32 x < 2147483648.
+Proof. intros x. unfold sint32, W32, W31. destruct (Z.ltb_spec (x mod 4294967296) 2147483648); lia. Qed.
+
+(* fast_atoi<int> on the canonical text of ANY int32 *)
+Lemma atoi_int_canon : forall v, -2147483648 <= v < 2147483648 ->
+  fast_atoi T_int 0 (canon_dec v) = AR_ok v.
+Proof.
+  intros v Hv. unfold fast_atoi, canon_dec. destruct (Z.ltb_spec v 0).
+  - rewrite Z.eqb_refl. cbn [tl]. rewrite loop_digits by lia. cbn [umod]. f_equal.
+    unfold sint32, W32, W31.
+    destruct (Z.ltb_spec (((0 - (- v) mod 4294967296) mod 4294967296) mod 4294967296) 2147483648); lia.
+  - pose proof (dec_digits_nonempty dec_fuel v ltac:(unfold dec_fuel; lia)) as N.
+    pose proof (dec_digits_are_digits dec_fuel v ltac:(lia)) as F.
+    destruct (dec_digits dec_fuel v) as [| c r] eqn:E; [contradiction |].
+    inversion F; subst. destruct (Z.eqb_spec c 45); [lia |].
+    rewrite <- E, loop_digits by lia. cbn [umod]. f_equal.
+    unfold W32. rewrite Z.mod_small by lia. apply sint32_small. lia.
+Qed.
+
+Lemma atoi_uns_canon : forall ty, ty = T_uint \/ ty = T_ushort -> forall n, 0 <= n < umod ty ->
+  fast_atoi ty 0 (dec_digits dec_fuel n) = AR_ok n.
+Proof.
+  intros ty Hty n Hn.
+  assert (Hb : umod ty <= 4294967296) by (destruct Hty as [-> | ->]; cbn [umod]; unfold W32, W16; lia).
+  assert (Ef : fast_atoi ty 0 (dec_digits dec_fuel n) =
+               match atoi_loop ty 0 (dec_digits dec_fuel n) 0 with AR_ok r => AR_ok r | AR_oob => AR_oob end).
+  { destruct Hty as [-> | ->]; unfold fast_atoi; destruct (dec_digits dec_fuel n); reflexivity. }
+  rewrite Ef, loop_digits by lia. rewrite Z.mod_small by lia. reflexivity.
+Qed.
+
+(* fast_atoi is total and free of undefined operations on EVERY text, and its result is a value
+   of the target type *)
+Lemma atoi_total_lemma : forall text,
+  (exists v, fast_atoi T_int 0 text = AR_ok v /\ -2147483648 <= v <= 2147483647) /\
+  (exists v, fast_atoi T_uint 0 text = AR_ok v /\ 0 <= v <= 4294967295) /\
+  (exists v, fast_atoi T_ushort 0 text = AR_ok v /\ 0 <= v <= 65535).
+Proof.
+  intros text. repeat split.
+  - unfold fast_atoi.
+    set (neg := match text with c :: _ => c =? 45 | [] => false end).
+    destruct (loop_total T_int (if neg then tl text else text) 0) as [r [E _]]. rewrite E.
+    eexists. split; [reflexivity |]. pose proof (sint32_range (if neg then (0 - r) mod umod T_int else r)). lia.
+  - unfold fast_atoi. destruct (loop_total T_uint text 0) as [r [E B]].
+    assert (Es : (if match text with _ => false end then tl text else text) = text) by (destruct text; reflexivity).
+    cbv zeta. replace (match text with | [] | _ => false end) with false by (destruct text; reflexivity).
+    rewrite E. exists r. split; [reflexivity |]. specialize (B ltac:(cbn [umod]; unfold W32, W16; lia)). cbn [umod] in B. unfold W32, W16 in B. lia.
+  - unfold fast_atoi. destruct (loop_total T_ushort text 0) as [r [E B]].
+    cbv zeta. replace (match text with | [] | _ => false end) with false by (destruct text; reflexivity).
+    rewrite E. exists r. split; [reflexivity |]. specialize (B ltac:(cbn [umod]; unfold W32, W16; lia)). cbn [umod] in B. unfold W32, W16 in B. lia.
 Qed.
 
 (* --------------------------------------------------------------------------- round trips *)
@@ -320,7 +302,7 @@ Proof.
 Qed.
 
 (* THE integer half of the property: every int32 is rendered as its canonical text and that text
-   parses back to it, without any undefined operation *)
+   parses back to it (the routine has no undefined operation at all: atoi_total_lemma) *)
 Lemma int_roundtrip_lemma : forall v, -2147483648 <= v < 2147483648 ->
   int_roundtrip v = Some (canon_dec v, AR_ok v) /\
   c08_int_strict_ok v (canon_dec v) (Some v) = true.
@@ -337,16 +319,14 @@ Proof.
   intros v Hv. unfold uint_roundtrip.
   rewrite itoa_uint_canonical_lemma by lia.
   unfold canon_dec. destruct (Z.ltb_spec v 0); [lia |].
-  rewrite (atoi_mod_digits T_uint W32) by (try lia; left; split; reflexivity).
-  unfold W32. rewrite Z.mod_small by lia. reflexivity.
+  rewrite (atoi_uns_canon T_uint) by (try (left; reflexivity); cbn [umod]; unfold W32; lia). reflexivity.
 Qed.
 
 Lemma ushort_parse_lemma : forall v, 0 <= v < 65536 ->
   fast_atoi T_ushort 0 (canon_dec v) = AR_ok v.
 Proof.
   intros v Hv. unfold canon_dec. destruct (Z.ltb_spec v 0); [lia |].
-  rewrite (atoi_mod_digits T_ushort W16) by (try lia; right; split; reflexivity).
-  unfold W16. rewrite Z.mod_small by lia. reflexivity.
+  rewrite (atoi_uns_canon T_ushort) by (try (right; reflexivity); cbn [umod]; unfold W16; lia). reflexivity.
 Qed.
 
 (* ------------------------------------------------------------------------ oracle level *)
@@ -377,8 +357,7 @@ Proof.
   - destruct (Z.leb_spec 0 v); cbn [andb]; [| reflexivity].
     destruct (Z.leb_spec v 4294967295); [| reflexivity].
     unfold canon_dec. destruct (Z.ltb_spec v 0); [lia |].
-    rewrite (atoi_mod_digits T_uint W32) by (try lia; left; split; reflexivity).
-    unfold W32. rewrite Z.mod_small by lia. cbn [ar_opt]. apply Z.eqb_refl.
+    rewrite (atoi_uns_canon T_uint) by (try (left; reflexivity); cbn [umod]; unfold W32; lia). cbn [ar_opt]. apply Z.eqb_refl.
   - destruct (Z.leb_spec 0 v); cbn [andb]; [| reflexivity].
     destruct (Z.leb_spec v 65535); [| reflexivity].
     rewrite ushort_parse_lemma by lia. cbn [ar_opt]. apply Z.eqb_refl.
